@@ -29,6 +29,8 @@ POOLS = {
     "abcd": ["a", "b", "c", "d"],
     "real": ["www", "lemonde", "fr", "co", "uk", "blog"],
     "idn": ["télérama", "fr", "рф", "www", "bücher"],
+    # A-labels whose payload starts with a letter of the ACE prefix itself (xn--nio-8ma, xn--xnon-bpa, xn--nrnberg-n2a)
+    "idn2": ["ni\u00f1o", "com", "x\u00e9non", "n\u00fcrnberg", "www"],
     "edge": ["localhosting", "com", "x-1", "a1", "1a"],
     "digits": ["1", "22", "com", "a"],
     # labels that are string-suffixes of each other: whole labels must be compared
@@ -40,7 +42,7 @@ POOLS = {
     "wide": ["a", "b", "c", "d", "e", "f", "g", "h", "i"],
     "deep": ["a", "b"],
 }
-POOL_ORDER = ["ab", "abc", "abcd", "real", "idn", "edge", "digits", "suffixy", "kinds", "wide", "deep"]
+POOL_ORDER = ["ab", "abc", "abcd", "real", "idn", "idn2", "edge", "digits", "suffixy", "kinds", "wide", "deep"]
 URL_FORMS = ["http", "bare", "port", "schemeless", "auth", "split", "https_q", "auth_noport", "user_only", "upper_scheme", "query_only", "frag_only", "bare_port", "bare_query", "bare_user", "bare_dslash", "bare_q_url", "auth_esc"]
 NONSTRING = ["none", "int", "list", "bytes"]
 FAULT_KINDS = ["iter_cancel", "add_raises"]
@@ -234,9 +236,9 @@ def generate(seed, run, tier):
     if family == "bundled":
         return generate_bundled(crng, srng)
 
-    pool = weighted_choice(crng, [("ab", 30), ("abc", 25), ("abcd", 8), ("real", 12), ("idn", 12), ("edge", 8), ("digits", 5), ("suffixy", 6), ("kinds", 7), ("wide", 5), ("deep", 8)])
+    pool = weighted_choice(crng, [("ab", 30), ("abc", 25), ("abcd", 8), ("real", 12), ("idn", 9), ("idn2", 6), ("edge", 8), ("digits", 5), ("suffixy", 6), ("kinds", 7), ("wide", 5), ("deep", 8)])
     alphabet = POOLS[pool]
-    if pool in ("real", "idn", "edge", "digits", "abcd", "suffixy") and crng.random() < 0.5:
+    if pool in ("real", "idn", "idn2", "edge", "digits", "abcd", "suffixy") and crng.random() < 0.5:
         alphabet = alphabet[: crng.choice([3, 4])]
     if pool == "kinds":
         alphabet = crng.sample(alphabet, 3)
